@@ -443,7 +443,17 @@ int register_mod_src(m_mod_t *mod, m_src_types type, const void *src_data,
                 ret = start_task(c, src);
             }
         }
-        return !ret ? 0 : -errno;
+        if (ret == 0) {
+            return 0;
+        }
+        /* The source cannot be polled (eg: a pid that does not exist): it is refused, thus it does not stay registered */
+        ret = errno ? -errno : ret;
+        if (!(flags & M_SRC_DUP)) {
+            src->flags &= ~M_SRC_FD_AUTOCLOSE;
+        }
+        src->flags &= ~M_SRC_AUTOFREE;
+        m_bst_remove(mod->srcs[type], src);
+        return ret;
     }
     /*
      * Refused (eg: -EEXIST): nothing of what the user passed is ours.
